@@ -782,10 +782,23 @@ func (am *AccountingManager) persistActiveSession(session *AccountingSession) {
 		return
 	}
 
-	am.verifCrashPoint(20, path)
-	if err := os.WriteFile(path, data, 0600); err != nil {
+	am.verifCrashPoint(20, path+".tmp")
+	if err := writeFileAtomic(path, data, 0600); err != nil {
 		am.logger.Debug("Failed to persist session", zap.Error(err))
 	}
+}
+
+// writeFileAtomic replaces path by a file with the given content. os.WriteFile truncates
+// the existing file first, so a crash in the middle of the rewrite left an empty or
+// partial file, which the recovery then deleted as corrupt (losing the session's Stop).
+// Writing a temporary file and renaming it keeps the previous content until the new one
+// is complete.
+func writeFileAtomic(path string, data []byte, perm os.FileMode) error {
+	tmp := path + ".tmp"
+	if err := os.WriteFile(tmp, data, perm); err != nil {
+		return err
+	}
+	return os.Rename(tmp, path)
 }
 
 // removePersistedSession removes a persisted session file
@@ -809,8 +822,8 @@ func (am *AccountingManager) persistPendingRecords() error {
 		return fmt.Errorf("marshal pending records: %w", err)
 	}
 
-	am.verifCrashPoint(21, path)
-	if err := os.WriteFile(path, data, 0600); err != nil {
+	am.verifCrashPoint(21, path+".tmp")
+	if err := writeFileAtomic(path, data, 0600); err != nil {
 		return fmt.Errorf("write pending records: %w", err)
 	}
 
